@@ -15,7 +15,28 @@ ASSUMPTIONS = [
 ALLOC = "function churn(n: number) { const junk: any[] = []; for (let i = 0; i < n; i++) { junk.push({i, s: 'x' + i, a: [i, i + 1]}); } return junk.length; }\n"
 
 # natives that allocate while holding inputs, callbacks that allocate, getters, proxies, generators, promises …
-TEMPLATES = [
+# natives that call back per element: the callback shrinks / overwrites the SOURCE array, so elements the native has copied but not yet
+# visited are reachable from nothing else (6 mutations x 26 natives; found Array.from, Map.groupBy, Object.groupBy on the unchanged tree)
+SRC_MUTS = ["a.length = 3", "a.length = 0", "a.splice(2)", "a.fill(0 as any)", "a[3] = 0; a[4] = 0; a[5] = 0", "a.pop(); a.pop(); a.shift()"]
+SRC_NATIVES = [
+    "sv(a.map(x => { M(); return x && x.v; }))", "(() => { const r: any[] = []; a.forEach(x => { M(); r.push(x && x.v); }); return sv(r); })()", "sv(a.filter(x => { M(); return true; }))",
+    "sv(a.find(x => { M(); return x && x.v === 5; }))", "sv(a.findLast(x => { M(); return x && x.v === 1; }))", "sv(a.some(x => { M(); return x && x.v === 9; }))", "sv(a.every(x => { M(); return true; }))",
+    "sv(a.reduce((acc, x) => { M(); acc.push(x && x.v); return acc; }, [] as any[]))", "sv(a.reduceRight((acc, x) => { M(); acc.push(x && x.v); return acc; }, [] as any[]))",
+    "sv(a.flatMap(x => { M(); return [x, x]; }))", "sv(a.slice().sort((p, q) => { M(); return (p && p.v || 0) - (q && q.v || 0); }))", "sv(a.sort((p, q) => { M(); return (q && q.v || 0) - (p && p.v || 0); }))",
+    "sv(a.toSorted((p, q) => { M(); return (q && q.v || 0) - (p && p.v || 0); }))", "sv(Array.from(a, x => { M(); return x; }))", "sv([...Map.groupBy(a, x => { M(); return x && x.v % 2; })])",
+    "sv(Object.groupBy(a, x => { M(); return x && x.v % 2 ? 'o' : 'e'; }))", "(() => { const r: any[] = []; for (const x of a) { M(); r.push(x); } return sv(r); })()",
+    "(() => { const it = a[Symbol.iterator](); const r: any[] = []; for (;;) { const s = it.next(); if (s.done) break; M(); r.push(s.value); } return sv(r); })()",
+    "(() => { const r: any[] = []; for (const [i, x] of a.entries()) { M(); r.push(x); } return sv(r); })()", "a.map(x => ({ toString() { M(); return String(x.v); } })).join('-')", "sv(a.findIndex(x => { M(); return x && x.v === 6; }))",
+    "(() => { const st = new Set(a); const r: any[] = []; st.forEach(x => { if (n++ === 1) { st.clear(); } J(); r.push(x); }); return sv(r); })()",
+    "(() => { const mp = new Map(a.map((x, i) => [i, x])); const r: any[] = []; mp.forEach((x, k) => { if (n++ === 1) { mp.clear(); } J(); r.push(x); }); return sv(r); })()",
+    "(() => { const it = { [Symbol.iterator]() { let i = 0; return { next() { M(); return i < a.length ? {value: a[i++], done: false} : {value: undefined, done: true}; } }; } }; const [p, q, ...rest] = it as any; return sv([p, q, rest]); })()",
+    "sv([].concat(...a.map(x => { M(); return [x]; })))", "'abcdef'.replace(/[a-f]/g, (c) => { M(); return sv(a[c.charCodeAt(0) - 97]); })",
+]
+SRC_PRE = ("const a: any[] = [1,2,3,4,5,6].map(v => ({v})); let n = 0; const J = () => { const junk: any[] = []; for (let i = 0; i < 60; i++) junk.push({i}); return junk.length; }; "
+           "const M = () => { if (n++ === 1) { MUT; } J(); }; const sv = (x: any) => JSON.stringify(x, (k, v) => v === undefined ? 'U' : v);\n")
+SOURCE_MUTATION = [SRC_PRE.replace("MUT", m) + nat for nat in SRC_NATIVES for m in SRC_MUTS]
+
+TEMPLATES = SOURCE_MUTATION + [
     # natives that accumulate results while calling back: the callback takes the accepted element out of the source, so the pending result is its only holder
     "const a: any[] = [1, 2, 3, 4].map(v => ({v, pad: [v]})); const r = a.filter((o, i) => { if (i > 0) { a[i - 1] = null; churn(40); } return true; }); churn(20); r.map(o => o.v + ':' + o.pad[0]).join(',')",
     "const a: any[] = [1, 2, 3, 4].map(v => ({v, pad: [v]})); const r = a.map((o, i) => { if (i > 0) { a[i - 1] = null; } churn(40); return {w: o.v, q: [o.v]}; }); churn(20); r.map(o => o.w + ':' + o.q[0]).join(',')",
